@@ -59,8 +59,8 @@ def strat_agree(tier):
     # npts: pupil quadrature order requested from MieLens; above the default (100) the detector may lie where the
     # default order is not converged (Phi in (200, 2*npts]) and beyond the default large-rho cutoff
     return st.tuples(_base(None), st.tuples(st.integers(0, 60), st.integers(0, 60)), st.booleans(),
-                     st.sampled_from([100, 100, 100, 130, 180, 260])).map(
-        lambda t: dict(t[0], extra=list(t[1]), equal_orders=t[2], npts=t[3]))
+                     st.sampled_from([100, 100, 100, 130, 180, 260]), gen.warm_strategy()).map(
+        lambda t: dict(t[0], extra=list(t[1]), equal_orders=t[2], npts=t[3], warm=t[4]))
 
 
 def run_agree(case):
@@ -80,11 +80,17 @@ def run_agree(case):
     if case["equal_orders"]:
         qt = qp = max(qt, qp)
     ml = MieLens(lens_angle=beta) if npts == 100 else MieLens(lens_angle=beta, calculator_accuracy_kwargs={"quad_npts": npts})
+    lens = Lens(beta, Mie(False, False), quad_npts_theta=qt, quad_npts_phi=qp)
+    # both theory objects may have been used before, on a sibling sphere
+    gen.warm_up(ml, sph, o, case.get("warm"))
+    gen.warm_up(lens, sph, o, case.get("warm"))
     a = calc_field(det, sph, theory=ml, **kw).values
-    b = calc_field(det, sph, theory=Lens(beta, Mie(False, False), quad_npts_theta=qt, quad_npts_phi=qp), **kw).values
+    b = calc_field(det, sph, theory=lens, **kw).values
     pang = math.atan2(o["pol"][1], o["pol"][0])
     labels = ["absorbing" if s["m"][1] else "real", "below_focus" if kz < 0 else "above_focus",
               "equal_orders" if qt == qp else "unequal_orders", "small_angle" if beta < 0.5 else "large_angle"]
+    if case.get("warm"):
+        labels.append("theory_used_before")
     if npts > 100:
         labels.append("refined_needed" if (phase > 200 or krho.max() > 390) else "refined_not_needed")
     scale = np.abs(b).max()
